@@ -179,6 +179,19 @@ CHECKS = {
              "Reference-BLAS contract (column-major, ld >= max(1, stored rows)) is encoded in checks/c13.py and trusted.",
         technique="abstract interpretation of -O2 LLVM IR in a polynomial domain, checked against the reference-BLAS index contract",
     ),
+    "C18": dict(
+        engine="irval", category="other",
+        text=("mpi::message(v.elements()) (D = 1..3 quick, ..4 thorough; mutable and const views), create_subarray(layout, old, &new) and mpi::data(iterator) are "
+              "evaluated symbolically on an arbitrary view; the sequence of MPI_Type_size / dup / vector / create_hvector / create_resized / commit / free calls "
+              "(external events with opaque output handles) is interpreted in the type-map algebra of the MPI standard. M18.map: the (buffer, count, datatype) "
+              "denotes, as a list of (count, byte stride) loop levels, exactly the view's canonical element order from its base. M18.life: every created "
+              "datatype is freed exactly once, none is used after being freed, the datatype handed out is committed before and freed once after, predefined "
+              "datatypes are never freed."),
+        design_ref="DESIGN.md 3/C18",
+        note=IRNOTE + " Trusted: the type-map algebra of MPI-3.1 section 4.1 as encoded in checks/c18.py; Open MPI's mpi.h. Assumes positive strides and non-empty "
+             "views. Not decided: what an MPI implementation does with the message (packing, transfer, receive into another layout).",
+        technique="abstract interpretation of -O2 LLVM IR in a polynomial domain + interpretation of the MPI type-constructor sequence in the type-map algebra",
+    ),
     "C19": dict(
         engine="irval", category="proof",
         text=("All C01 obligations re-evaluated with a free symbolic first index per dimension (offset_k = f_k*stride_k), plus reindexed, "
